@@ -13,7 +13,7 @@ ASSUMPTIONS = [
 
 # rounds per algorithm (quick, thorough) — sized by measured path counts
 T_OF = {
-    "T_HOO": (6, 8), "HCT": (7, 10), "VHCT": (3, 4), "DOO": (5, 7), "SOO": (7, 10), "StoSOO": (7, 10),
+    "T_HOO": (6, 8), "HCT": (7, 10), "VHCT": (3, 4), "DOO": (6, 8), "SOO": (7, 10), "StoSOO": (7, 10),
     "SequOOL": (8, 10), "StroquOOL": (7, 8), "VROOM": (2, 3), "Zooming": (5, 7), "POO": (4, 6), "GPO": (4, 6),
     "PCT": (4, 6), "VPCT": (3, 4),
 }
@@ -118,6 +118,7 @@ class PointsInBox(Observer):
 
 
 def run(ctx, cfg):
+    ctx.own_exceptions = True
     c = dict(cfg)
     if c.get("params", {}).get("delta") == "user":
         c["params"] = dict(c["params"], delta=lambda h: 0.5 ** h)
